@@ -348,7 +348,25 @@ fn margins_case(ctx: &mut Ctx, wl: &str, case: u64, rng: &mut Rng) {
     let mut comp = CompositeCone::<f64>::new(&cts);
     // margins of an arbitrary vector = (min, positive sum) of the oracle spectrum
     let mag = rng.logpos(-3.0, 3.0);
-    let v: Vec<f64> = (0..m).map(|_| rng.normal() * mag).collect();
+    let mut v: Vec<f64> = (0..m).map(|_| rng.normal() * mag).collect();
+    // a slice in which whole blocks are EXACTLY zero (the apex): what the initial KKT solve returns for z when
+    // P = 0 and q = 0, or for s when b = 0.  The margin of the apex is 0, not "undefined", and it must count
+    let zero_blocks = rng.bool(0.15);
+    let zero_ranges: Vec<std::ops::Range<usize>> = if zero_blocks {
+        let all = rng.bool(0.3);
+        cts.iter().zip(cone_ranges(&cts)).filter(|(c, _)| !matches!(c, ConeT::ZeroConeT(_))).filter_map(|(_, r)| if all || rng.bool(0.6) { Some(r) } else { None }).collect()
+    } else {
+        vec![]
+    };
+    for r in &zero_ranges {
+        for i in r.clone() {
+            v[i] = 0.0;
+        }
+    }
+    if !zero_ranges.is_empty() {
+        ctx.bump("instances_with_exactly_zero_blocks");
+    }
+    let v = v;
     let mut v2 = v.clone();
     let (alpha, beta) = comp.margins(&mut v2, PrimalOrDualCone::PrimalCone);
     let mut want_min = f64::INFINITY;
@@ -412,6 +430,17 @@ fn margins_case(ctx: &mut Ctx, wl: &str, case: u64, rng: &mut Rng) {
             }
         }
         ctx.bump("initialization_far_outside_instances");
+    }
+    for r in &zero_ranges {
+        let which = rng.usize(0, 2);
+        for i in r.clone() {
+            if which != 1 {
+                vars.z[i] = 0.0;
+            }
+            if which != 0 {
+                vars.s[i] = 0.0;
+            }
+        }
     }
     let z_before = vars.z.clone();
     let s_before = vars.s.clone();
